@@ -349,7 +349,43 @@ func c04HookFailure(c *Ctx) {
 				"success return dominated by the hook-signalled error being nil", "a sync whose hook signalled failure can return success (latest-synced updated, success notification sent)")
 		}
 	}
-	c.Floor("C04.E1-hook-failure", 4)
+	// …and only FailSync raises it, only the per-segment reset lowers it: no other action the hook can take (choosing
+	// where to continue, say) writes the failure slot — else a failure reported for one block is wiped by what the
+	// hook does for the next, and the sync returns success
+	nSlot := 0
+	for _, f := range c.Funcs(dagsyncPkg) {
+		instrsDeep(f.SSA, func(g *ssa.Function, in ssa.Instruction) {
+			st, ok := in.(*ssa.Store)
+			if !ok {
+				return
+			}
+			a := c.E(st.Addr)
+			whole := false
+			if _, isFA := st.Addr.(*ssa.FieldAddr); !isFA {
+				if pt, ok := st.Addr.Type().Underlying().(*types.Pointer); ok {
+					if nm, ok := pt.Elem().(*types.Named); ok && canonType(nm.Obj()) == "segmentedSync" {
+						if _, fresh := st.Addr.(*ssa.Alloc); !fresh {
+							whole = true // *ss = segmentedSync{…}: writes the slot with the rest
+						}
+					}
+				}
+			}
+			if !whole {
+				if a.Op != "field" || canonName(a.Name) != "err" || fieldOwner(a) != "segmentedSync" {
+					return
+				}
+				if _, fresh := strip(a.Args[0]).V.(*ssa.Alloc); fresh {
+					return // a literal being built
+				}
+			}
+			nSlot++
+			top := topFunc(g)
+			byHook := top.Object() != nil && top.Object().Exported() && top.Signature.Recv() != nil
+			okW := !byHook || top.Name() == "FailSync"
+			c.Check(okW, "C04.E1-hook-failure", c.short(top.String())+" › writes the failure slot", st.Pos(), "the hook-signalled failure is written by FailSync and by the per-segment reset only", "an action the block hook can take other than FailSync writes the failure slot: a failure signalled for an earlier block is lost when the hook goes on, and the sync reports success")
+		})
+	}
+	c.Floor("C04.E1-hook-failure", 6)
 	// the hook-signalled failure belongs to one sync: whatever state of a running sync lives in the handler (shared by
 	// all syncs of the publisher) is written only after the per-publisher lock is taken — (re)initialised before it, a
 	// second sync queued behind a running one wipes that one's failure, and the failed sync returns success
